@@ -162,6 +162,10 @@ pub enum Point {
     SyncUnlocked,
     /// One iteration of a batch loop of the maintenance task (expiry purge, size eviction).
     MaintenanceLoopIter,
+    /// `handle_upsert`: the op has been found current and its entry does not fit in
+    /// the remaining capacity; it is about to be rejected as too big or to go through
+    /// admission.
+    UpsertNoRoom,
     /// `handle_upsert`: an admission decision has been taken; victims / the
     /// candidate are about to be removed from the map.
     UpsertBeforeVictims,
